@@ -110,7 +110,7 @@ theorem C04_witness_tiermove :
       -- at the end
       C04Hyps c04W2 s ∧ C04Concl c04W2 s ∧
       (∃ p ∈ s.procs, p.k.tag = "hot2cold") ∧ (∃ p ∈ s.procs, p.k.tag = "cold2hot") ∧ ¬ NoTier s ∧
-      s.buf.hot.finished = [1, 0, 2] ∧ s.buf.cold.stored = [] ∧
+      s.buf.hot.finished = [1, 2, 0] ∧ s.buf.cold.stored = [] ∧  -- F13: `hot.finished` was [1, 0, 2]
       s.buf.hot.cur = 100 ∧ s.buf.cold.cur = 100 ∧
       s.obs.map (·.id) = [0, 1, 2] ∧
       s.tasks.map (fun r => (r.id, r.status)) =
